@@ -31,7 +31,8 @@ checks = []; na = []
 for pid in sorted(T):
     t = T[pid]
     p = os.path.join(V, 'lib', pid.lower() + '.py')
-    if not os.path.exists(p):
+    ready = [l.strip() for l in open(os.path.join(V, 'ready.txt')) if l.strip()]
+    if not os.path.exists(p) or pid not in ready:
         na.append(dict(property_id=pid, reason='check not built yet in this round (planned: %s; DESIGN.md section %s)' % (t['tech'], t['ref'])))
         continue
     text = t['text']; note = t['note']
@@ -44,7 +45,10 @@ for pid in sorted(T):
     import re
     m = re.search(r'^LEVEL_NOTE = (.*)$', src, re.M)
     if m:
-        note = eval(m.group(1))
+        try:
+            note = eval(m.group(1))
+        except Exception:
+            pass
     checks.append(dict(property_id=pid, quick_cmd='./check %s --tier quick' % pid, thorough_cmd='./check %s --tier thorough' % pid,
                        evidence_file='/verif/evidence/%s.json' % pid, replay_cmd_template='./check %s --replay {path}' % pid,
                        engine='tlc+apalache+conformance', technique=t['tech'],
